@@ -13,6 +13,7 @@ gen/Versions.v (Python `ast` over engine.py; nothing is executed):
   query_base_ops / query_ext_ops   the operation lists _process_query advertises (unconditional / per version test)
   response_version_source  which expression process_request hands to _build_response as the header version
   attr_support_sites       handlers (transitively, through helpers) that consult is_attribute_supported / _deprecated
+  locate_filter_checked    _process_locate refuses unsupported filter attribute names up front (shape recognised or fail)
 
 gen/VersionFields.v:
   kmip_versions            members of enums.KMIPVersion as (major, minor)
@@ -348,7 +349,33 @@ def engine_tables(repo, enums):
             todo += [y for y in callees[x] if not y.startswith('_process_') or y == '_process_template_attribute']
         sites.append((h, 'is_attribute_supported' in acc, 'is_attribute_deprecated' in acc))
 
-    return dict(supported=supported, didx=didx, version_check=version_check, cmpname=cmpname, handler_min=handler_min,
+    # --- Locate: are the filter attribute names put through is_attribute_supported before any filtering?
+    #     recognised shape: `if payload.attributes:` directly in the method body, whose first statement is
+    #     `for a in payload.attributes: name = a.attribute_name.value; if not <policy>.is_attribute_supported(name): raise InvalidField`
+    pl = methods.get('_process_locate') or bail('no _process_locate')
+    locate_checked = False
+    guards_found = [n for n in ast.walk(pl) if isinstance(n, ast.Call) and isinstance(n.func, ast.Attribute)
+                    and n.func.attr == 'is_attribute_supported']
+    outer = [st for st in pl.body if isinstance(st, ast.If) and src(st.test) == 'payload.attributes']
+    if guards_found:
+        if len(guards_found) != 1 or len(outer) != 1 or not outer[0].body or not isinstance(outer[0].body[0], ast.For):
+            bail('_process_locate: use of is_attribute_supported not recognised', guards_found[0])
+        loop = outer[0].body[0]
+        if src(loop.iter) != 'payload.attributes' or not isinstance(loop.target, ast.Name) or loop.orelse or len(loop.body) != 2:
+            bail('_process_locate: filter check loop not recognised', loop)
+        a0, i0 = loop.body
+        if not (isinstance(a0, ast.Assign) and len(a0.targets) == 1 and isinstance(a0.targets[0], ast.Name)
+                and src(a0.value) == '%s.attribute_name.value' % loop.target.id):
+            bail('_process_locate: filter check loop does not take the attribute name', a0)
+        nm = a0.targets[0].id
+        if not (isinstance(i0, ast.If) and not i0.orelse
+                and src(i0.test) == 'not self._attribute_policy.is_attribute_supported(%s)' % nm
+                and len(i0.body) == 1 and isinstance(i0.body[0], ast.Raise) and isinstance(i0.body[0].exc, ast.Call)
+                and src(i0.body[0].exc.func) == 'exceptions.InvalidField'):
+            bail('_process_locate: filter check not recognised: %s' % src(i0)[:120], i0)
+        locate_checked = True
+
+    return dict(locate_checked=locate_checked, supported=supported, didx=didx, version_check=version_check, cmpname=cmpname, handler_min=handler_min,
                 dispatch=dispatch, branches=branches, qbase=base, qext=ext, resp_src=resp_src, sites=sites)
 
 
@@ -382,7 +409,8 @@ def versions_v(t):
           '(* handler -> (reaches is_attribute_supported, reaches is_attribute_deprecated) through self.<helper> calls *)',
           'Definition attr_support_sites : list (string * bool * bool) := [']
     o.append(';\n'.join('  (%s, %s, %s)' % (coq_str(h), 'true' if a else 'false', 'true' if b else 'false') for h, a, b in t['sites']))
-    o += ['].']
+    o += ['].', '', '(* _process_locate refuses (InvalidField) every filter attribute name that fails is_attribute_supported, before filtering *)',
+          'Definition locate_filter_checked : bool := %s.' % ('true' if t['locate_checked'] else 'false')]
     return '\n'.join(o) + '\n'
 
 
